@@ -23,6 +23,37 @@ const goBin = "/opt/veriftools/go1.26.8/bin/go"
 
 // verif is the root of the verification tree: /verif for the registered
 // commands, a snapshot directory for background runs started with `vp run`.
+// repoPath is the tree under test: /repo for the registered commands; a scratch
+// worktree when VERIF_REPO is set (evaluation of seeded changes without
+// touching /repo).
+var repoPath = func() string {
+	if r := os.Getenv("VERIF_REPO"); r != "" {
+		return r
+	}
+	return "/repo"
+}()
+
+// altModfile writes a go.mod/go.sum pair whose replace directive points at
+// repoPath and returns the -modfile argument ("" when repoPath is /repo).
+func altModfile(dir string) (string, error) {
+	if repoPath == "/repo" {
+		return "", nil
+	}
+	gm, err := os.ReadFile(filepath.Join(verif, "sim", "go.mod"))
+	if err != nil {
+		return "", err
+	}
+	mod := strings.Replace(string(gm), "=> /repo", "=> "+repoPath, 1)
+	mf := filepath.Join(dir, "alt.go.mod")
+	if err := os.WriteFile(mf, []byte(mod), 0o644); err != nil {
+		return "", err
+	}
+	if gs, err := os.ReadFile(filepath.Join(verif, "sim", "go.sum")); err == nil {
+		os.WriteFile(filepath.Join(dir, "alt.go.sum"), gs, 0o644)
+	}
+	return "-modfile=" + mf, nil
+}
+
 var verif = func() string {
 	if r := os.Getenv("VERIF_ROOT"); r != "" {
 		return r
@@ -88,7 +119,7 @@ type workerOut struct {
 
 func env() []string {
 	e := os.Environ()
-	e = append(e, "GOFLAGS=-mod=mod", "GOPROXY=off", "GOSUMDB=off", "GOTOOLCHAIN=local", "CGO_ENABLED=1")
+	e = append(e, "GOFLAGS=-mod=mod", "GOPROXY=off", "GOSUMDB=off", "GOTOOLCHAIN=local", "CGO_ENABLED=1", "VERIF_LIBPATH="+repoPath+"/")
 	return e
 }
 
@@ -163,7 +194,7 @@ func main() {
 	os.MkdirAll(filepath.Join(verif, ".build"), 0o755)
 	os.MkdirAll(filepath.Join(verif, "evidence"), 0o755)
 	os.MkdirAll(filepath.Join(verif, "replays", id), 0o755)
-	fmt.Printf("check %s tier=%s seed=%d\n", id, tier, seed)
+	fmt.Printf("check %s tier=%s seed=%d repo=%s\n", id, tier, seed, repoPath)
 
 	// known findings
 	var kf struct {
@@ -224,6 +255,10 @@ func main() {
 			args = append(args, extra...)
 			penv = e2
 			cleanup = cl
+		} else if mf, err := altModfile(pwork); err != nil {
+			die2("modfile: %v", err)
+		} else if mf != "" {
+			args = append(args, mf)
 		}
 		args = append(args, "./"+ph.Pkg)
 		bstart := time.Now()
@@ -595,6 +630,10 @@ func replayCmd(id, plan string) {
 		}
 		args = append(args, extra...)
 		penv = e2
+	} else if mf, err := altModfile(work); err != nil {
+		die2("modfile: %v", err)
+	} else if mf != "" {
+		args = append(args, mf)
 	}
 	args = append(args, "./"+ph.Pkg)
 	cmd := exec.Command(goBin, args...)
